@@ -1,2 +1,13 @@
 #!/bin/sh
-exit 0
+# Build the framework offline from files on disk: Coq development (full .vo), extracted
+# OCaml model + driver, Rust harness against /repo (hooks on).
+set -e
+here=$(cd "$(dirname "$0")" && pwd)
+export CARGO_NET_OFFLINE=true
+cd "$here/coq"
+coq_makefile -f _CoqProject -o Makefile
+timeout 3000 make -j16
+"$here/ocaml/build.sh"
+cd "$here/harness"
+cargo build --release --offline
+echo setup-ok
